@@ -46,12 +46,20 @@ Theorem evalE_good :
 Proof. exact Lemmas.evalE_good. Qed.
 Print Assumptions evalE_good.
 
-(* The policy regenerated from the CURRENT source drops every cached mask, before the broadcast, on
-   update_components, update_values_from_data, move_to, link changes and pixel-alignment changes. *)
+(* The policy regenerated from the CURRENT source drops every cached mask, before the broadcast, UNCONDITIONALLY
+   (the clearing call is executed whenever the mutating statement is: not nested under a further condition), on
+   update_components, update_values_from_data, move_to, link changes, pixel-alignment changes, remove_component. *)
 Theorem table_policy_covers :
-  forall p, In p [P_UPDATE_COMPONENTS; P_UPDATE_VALUES; P_MOVE_TO; P_LINKS; P_ALIGNED] -> table_policy p = Some (2, true).
+  forall p, In p [P_UPDATE_COMPONENTS; P_UPDATE_VALUES; P_MOVE_TO; P_LINKS; P_ALIGNED; P_REMOVE_COMPONENT] ->
+            table_policy p = Some (2, true) /\ uncond_of p = true.
 Proof. exact Lemmas.table_policy_covers. Qed.
 Print Assumptions table_policy_covers.
+
+(* add_component on an existing attribute clears everything before the broadcast under the guard `is_present`,
+   i.e. exactly when it is this operation (the guard is read, not proved, by the scan: uncond_of 7 = false). *)
+Theorem table_policy_replace_component : table_policy P_REPLACE_COMPONENT = Some (2, true).
+Proof. exact Lemmas.table_policy_replace_component. Qed.
+Print Assumptions table_policy_replace_component.
 
 (* FULL STATEMENT (false for the current source, see stale_setattr_refuted):
      forall fr den ops, ops_ok den fr ops world0 ->
